@@ -1,5 +1,6 @@
 (* C01 — serialise-then-parse round trip preserves every value and its type. *)
 From Anytype Require Import Base FloatBits Value Equality GoInt Utf8 Json JsonDoc SerializeProofs ParserBasics ParserCorrect RoundTrip FloatText.
+From Anytype Require Heap CloneProofs.
 Local Open Scope Z_scope.
 
 Section C01.
@@ -42,6 +43,30 @@ Section C01.
   Proof. exact (reparse_object fmt_e fmt_f pfloat F2 F1 F4 F3). Qed.
   Theorem C01_float_text_is_not_an_integer_literal : forall b, is_finite b = true -> fbits_ok b = true -> pint0 (ser_float fmt_e fmt_f b) = None.
   Proof. exact F4. Qed.
+
+  (* the heap-level reading used by the programs of the check (stream C01x): for a list (object) living in a heap whose tree is in the
+     domain, the text of String() parses to exactly the tree that the model's Clone step rebuilds in cells allocated by that step -
+     which is why "Parse(x.String())" is executed on the model as Clone *)
+  Theorem C01_heap_parse_back_list : forall f h id l, Heap.reify f h (Heap.HL id) = Some (VList l) -> val_ok (VList l) = true ->
+    (exists line, parse_list_top pfloat (ser (VList l)) = POk (VList l) [] line) /\
+    (exists h' v', Heap.clone_val f h (Heap.HL id) = Some (h', v') /\ Heap.reify f h' v' = Some (VList l) /\
+                   forall r, CloneProofs.Reach h' v' r -> (length h <= r)%nat).
+  Proof.
+    intros f h id l R V. split; [exact (roundtrip_list fmt_e fmt_f pfloat F2 F1 F4 F3 l V)|].
+    destruct (CloneProofs.clone_total _ _ _ _ R) as (h' & v' & C). exists h', v'. split; [exact C|]. split.
+    - exact (CloneProofs.clone_equal _ _ _ _ _ _ C R).
+    - intros r Hr. exact (CloneProofs.clone_fresh _ _ _ _ _ _ C Hr).
+  Qed.
+  Theorem C01_heap_parse_back_object : forall f h id kvs, Heap.reify f h (Heap.HO id) = Some (VObj kvs) -> val_ok (VObj kvs) = true ->
+    (exists line, parse_object_top pfloat (ser (VObj kvs)) = POk (VObj kvs) [] line) /\
+    (exists h' v', Heap.clone_val f h (Heap.HO id) = Some (h', v') /\ Heap.reify f h' v' = Some (VObj kvs) /\
+                   forall r, CloneProofs.Reach h' v' r -> (length h <= r)%nat).
+  Proof.
+    intros f h id kvs R V. split; [exact (roundtrip_object fmt_e fmt_f pfloat F2 F1 F4 F3 kvs V)|].
+    destruct (CloneProofs.clone_total _ _ _ _ R) as (h' & v' & C). exists h', v'. split; [exact C|]. split.
+    - exact (CloneProofs.clone_equal _ _ _ _ _ _ C R).
+    - intros r Hr. exact (CloneProofs.clone_fresh _ _ _ _ _ _ C Hr).
+  Qed.
 End C01.
 
 Example C01_nonvacuous :
@@ -61,3 +86,5 @@ Print Assumptions C01_equals_object.
 Print Assumptions C01_reparse_list.
 Print Assumptions C01_reparse_object.
 Print Assumptions C01_float_text_is_not_an_integer_literal.
+Print Assumptions C01_heap_parse_back_list.
+Print Assumptions C01_heap_parse_back_object.
